@@ -12,6 +12,7 @@ import (
 	"testing"
 	"time"
 
+	"github.com/golang/protobuf/proto"
 	"github.com/hashicorp/raft"
 	"github.com/robustirc/robustirc/internal/robust"
 	"pgregory.net/rapid"
@@ -199,7 +200,25 @@ func c10Execute(c *c10Case, rt *rapid.T, base string) (fail *vh.Failure, labels 
 				}
 				texts[fmt.Sprintf("text-%d", cmid)] = si
 			}
-			code := n.post(s.cred, data, cmid)
+			code := 200
+			if a.Times > 0 && !strings.HasPrefix(data, "QUIT") {
+				// the entry was accepted by a leader whose clock is a.Times*100ms behind this node's
+				// (clocks of nodes may differ by less than the election timeout, C19): it is committed
+				// with an earlier timestamp than the session's previous entry
+				m := &robust.Message{Type: robust.IRCFromClient, Session: robust.Id{Id: s.cred.Num}, Data: data, ClientMessageId: cmid,
+					UnixNano: time.Now().Add(-time.Duration(a.Times) * 100 * time.Millisecond).UnixNano(), RemoteAddr: "192.0.2.1:4711"}
+				mb, err := proto.Marshal(m.ProtoMessage())
+				if err != nil {
+					return vh.Failf("harness", "marshal: %v", err)
+				}
+				fut := node.Apply(append([]byte{'p'}, mb...), 5*time.Second)
+				if err := fut.Error(); err != nil {
+					return vh.Failf("harness", "raft apply: %v", err)
+				}
+				lab["c10:entry-with-earlier-timestamp-than-the-previous"] = true
+			} else {
+				code = n.post(s.cred, data, cmid)
+			}
 			if code != 200 {
 				return vh.Failf("post-refused", "POST %q with a fresh client message id answered %d", data, code)
 			}
@@ -299,6 +318,7 @@ func c10Execute(c *c10Case, rt *rapid.T, base string) (fail *vh.Failure, labels 
 			case 1, 2, 3, 4:
 				a.Kind = "line"
 				a.Data = rapid.SampledFrom([]string{"PRIVMSG #c :x", "PRIVMSG #c :x", "NICK renamed", "TOPIC #c :new", "AWAY :gone", "PING x", "QUIT :bye", "WHOIS observer"}).Draw(rt, "line")
+				a.Times = rapid.SampledFrom([]int{0, 0, 0, 0, 1, 5, 15}).Draw(rt, "clockbehind")
 			case 5, 6, 7, 8:
 				a.Kind = "retry"
 				a.Times = rapid.IntRange(1, 3).Draw(rt, "times")
